@@ -16,6 +16,7 @@ import (
 
 	"verif/simfw"
 	_ "verif/sims/mw"
+	_ "verif/sims/stream"
 )
 
 type violationRec struct {
